@@ -48,10 +48,14 @@ def init_pool(pid):
         x = torchtt.TT(full, eps=1e-12)
         big = _tt([4, 4, 6], [1, 2, 2, 1], 'b')
         return [x, big[0:4, 1:3, 1:5], _tt([4, 2, 4], [1, 2, 2, 1], 'S', M=[4, 2, 4])]
+    if pid == 5:
+        # uniform structure: all modes equal, all interior ranks equal, so the two interior cores of every object (and of most results)
+        # have ONE shape - anything keyed, cached or reused by core shape collides here and nowhere in pools 0..4
+        return [_tt([2, 2, 2, 2], [1, 2, 2, 2, 1], 'a'), _tt([2, 2, 2, 2], [1, 2, 2, 2, 1], 'b'), _tt([2, 2, 2, 2], [1, 2, 2, 2, 1], 'A', M=[2, 2, 2, 2])]
     raise KeyError(pid)
 
 
-NPOOLS = 5
+NPOOLS = 6
 
 
 # ------------------------------------------------------------------------------------------------ events
